@@ -3,8 +3,8 @@
 #  1. existing suite passes with the change (demo moved out)   2. demo fails with the change   3. demo passes without it
 # then copies patch.diff, the demo and meta.json to /verif/seeded/<ID>/ with a record of what was run.
 ID=$1
-WT=/tmp/wt-$ID
-OUT=/verif/seeded/$ID
+WT=${WT:-/tmp/wt-$ID}
+OUT=${OUT:-/verif/seeded/$ID}
 set -u
 cd $WT || exit 2
 export CARGO_NET_OFFLINE=true
